@@ -230,6 +230,7 @@ func gen(t *rapid.T) Case {
 	c.Chunked = chance(t, "chunked", 30)
 	c.LogVia = pick(t, "logvia", "", 4, "json", 1, "logrus", 2, "logrus-json", 1)
 	c.LogLevel = pick(t, "loglevel", "", 8, "debug", 6, "info", 2, "warn", 2, "error", 2)
+	c.CfgVia = pick(t, "cfgvia", "", 6, "json", 2, "json-title", 1, "yaml", 2)
 	c.DefTLS = pick(t, "deftls", "", 12, "disabled", 2, "insecure", 1, "enabled", 1)
 	c.DefRepoAuth = chance(t, "defrepoauth", 10)
 	c.DefHelper = chance(t, "defhelper", 5)
